@@ -6,7 +6,7 @@ from symlib import *
 ID = "C16"
 COQ_FILES = symlib.COQ_FILES + ["Proofs/SymbolsSpec.v", "Props/C16.v", "Props/C16_repaired.v"]
 PROPS = "Props/C16_repaired.v" if REPAIRED else "Props/C16.v"
-THEOREMS_ASIS = [
+THEOREMS_ASIS = ["C16_collision_iff_reported", "C16_partition_equiv", "C16_import_commutes", "C16_wf_universe_b_sound",
                  "C16_lock_discipline_refuted", "C16_model_race_witness",
                  "C16_lock_discipline_imports", "C16_model_drf_imports"]
 THEOREMS_REPAIRED = ["C16r_lock_discipline", "C16r_model_drf"]
